@@ -222,6 +222,10 @@ func TestWorker(t *testing.T) {
 					}
 				}
 				res.Harness = fmt.Sprintf("nondeterminism: seed %d run %d trace %x vs %x; differing streams:%s; decisions %d vs %d", seed, i, out.TraceHash, re.TraceHash, diff, len(out.Decisions), len(re.Decisions))
+				if dd := os.Getenv("VERIF_DIVERGE_DIR"); dd != "" {
+					b, _ := json.Marshal(map[string]any{"a": out.History, "b": re.History})
+					os.WriteFile(fmt.Sprintf("%s/diverge-%s-%d.json", dd, propID, seed), b, 0o644)
+				}
 				break
 			}
 		}
